@@ -471,22 +471,26 @@ def ewWrite (w : World) (tb : Tables) (st : St) (e : EW) (data : Bytes) : St × 
     (st, { e with err := e.err || failed }, failed, p)
   else ewLoop w tb (2 * data.length + 4) st e data
 
+/-- `envelopingWriter.Close`, first half: a body of unknown length that was buffered for a client
+    with envelopes is written out now. -/
+def ewCloseFlush (w : World) (st : St) (e : EW) : St × EW × Bool :=
+  match e.current with
+  | .limitBuf b =>
+    if e.remaining == -1 && e.mustRelease && !e.err && !st.rw.endWritten then
+      if b.length > st.op.conf.maxMsg then (st, { e with err := true }, false)
+      else match st.op.clientEnveloper with
+        | some ce =>
+          let env : Envelope := { compressed := st.rw.cRespComp.isSome, length := b.length }
+          let (st, failed, p) := writeDown w st (ce.encode env)
+          if failed || p then (st, { e with err := true }, p)
+          else let (st, failed, p) := writeDown w st b; (st, { e with err := failed }, p)
+        | none => (st, e, true)
+    else (st, e, false)
+  | _ => (st, e, false)
+
 /-- `envelopingWriter.Close`. -/
 def ewClose (w : World) (st : St) (e : EW) : St × Bool :=
-  let (st, e, p) :=
-    match e.current with
-    | .limitBuf b =>
-      if e.remaining == -1 && e.mustRelease && !e.err && !st.rw.endWritten then
-        if b.length > st.op.conf.maxMsg then (st, { e with err := true }, false)
-        else match st.op.clientEnveloper with
-          | some ce =>
-            let env : Envelope := { compressed := st.rw.cRespComp.isSome, length := b.length }
-            let (st, failed, p) := writeDown w st (ce.encode env)
-            if failed || p then (st, { e with err := true }, p)
-            else let (st, failed, p) := writeDown w st b; (st, { e with err := failed }, p)
-          | none => (st, e, true)
-      else (st, e, false)
-    | _ => (st, e, false)
+  let (st, e, p) := ewCloseFlush w st e
   if p then (st, true) else
   -- an early return above (size limit) skips the "unfinished body" report, as in Go
   if e.err && e.remaining == -1 then (st, false) else
@@ -580,6 +584,48 @@ def twClose (w : World) (tb : Tables) (st : St) (t : TW) : St × Bool :=
     reportError w st .other        -- unfinished envelope, or an announced message that never came
   else (st, false)
 
+/-- `responseWriter.WriteHeader`, middle part: the backend's response head is taken apart into the
+    response meta data (protocol headers, declared trailer keys); what is left in the header map
+    are application headers. -/
+def rwPrepareMeta (tb : Tables) (st : St) (status : Nat) (cl : Int) (clText : Bytes) : St × RespMeta × EndBody :=
+  let s1 := if clText.isEmpty then st else st.setHdr (st.hdr.del (s "Content-Length"))
+  let s2 : St := { s1 with rw := { s1.rw with contentLen := cl } }
+  let x := s2.op.sform.extractResponseHeaders tb status s2.hdr      -- (meta, kind of error body, remaining headers)
+  let s3 := s2.setHdr x.2.2
+  -- snapshot trailer keys
+  let keys := (parseMultiHeader (s3.hdr.values (s "Trailer"))).map canonKey
+  let rm : RespMeta := if keys.isEmpty then x.1 else { x.1 with pendingTrailerKeys := keys }
+  let s4 := if keys.isEmpty then s3 else s3.setHdr (s3.hdr.del (s "Trailer"))
+  let s5 := s4.setHdr ((s4.hdr.del (s "Content-Encoding")).del (s "Accept-Encoding"))
+  ({ s5 with rw := { s5.rw with respMeta := some rm } }, rm, x.2.1)
+
+def rwSetRespComp (st : St) (comp : Bytes) : St :=
+  if comp.isEmpty then st else { st with rw := { st.rw with cRespComp := some comp } }
+
+def rwSetWriter (st : St) (k : WK) : St := { st with rw := { st.rw with w := k } }
+
+/-- A response body follows: the head is flushed now, unless the client's protocol needs the end
+    of the RPC in the head (then the whole response is buffered). -/
+def rwStartBody (w : World) (st : St) : St × Bool :=
+  let sameResp := st.op.ccodec == st.op.scodec
+  let s2 : St := { st with rw := { st.rw with sameRespCodec := sameResp } }
+  let r : St × Bool :=
+    if s2.op.cform.endMustBeInHeaders then ({ s2 with rw := { s2.rw with buf := some [] } }, false)
+    else flushHeaders w s2
+  (rwSetWriter r.1 (if sameResp then .enveloping {} else .transforming {}), r.2)
+
+/-- `responseWriter.WriteHeader`, last part: choose the writer for the body. -/
+def rwChooseWriter (w : World) (st : St) (rm : RespMeta) (endBody : EndBody) : St × Bool :=
+  let comp := if rm.compression == identityName then [] else rm.compression
+  if !comp.isEmpty && !w.knownCompression comp then reportError w st .other else
+  let s1 := rwSetRespComp st comp
+  match rm.end with
+  | some _ =>
+    if endBody != .none then (rwSetWriter s1 (.errorWriter (some []) endBody), false)
+    else (rwSetWriter (flushHeaders w s1).1 .noBody, (flushHeaders w s1).2)
+  | none =>
+    if !rm.codec.isEmpty && rm.codec != s1.op.scodec then reportError w s1 .other else rwStartBody w s1
+
 /-- `responseWriter.WriteHeader`. -/
 def rwWriteHeader (w : World) (tb : Tables) (st : St) (status : Nat) : St × Bool :=
   if st.rw.headersWritten then (st, false) else
@@ -595,59 +641,33 @@ def rwWriteHeader (w : World) (tb : Tables) (st : St) (status : Nat) : St × Boo
   match cl? with
   | none => reportError w st .other
   | some cl =>
-    let st := if clText.isEmpty then st else st.setHdr (st.hdr.del (s "Content-Length"))
-    let st := { st with rw := { st.rw with contentLen := cl } }
-    let (rm, endBody, h) := st.op.sform.extractResponseHeaders tb status st.hdr
-    let st := st.setHdr h
-    -- snapshot trailer keys
-    let keys := (parseMultiHeader (st.hdr.values (s "Trailer"))).map canonKey
-    let (rm, st) := if keys.isEmpty then (rm, st)
-      else ({ rm with pendingTrailerKeys := keys }, st.setHdr (st.hdr.del (s "Trailer")))
-    let st := st.setHdr ((st.hdr.del (s "Content-Encoding")).del (s "Accept-Encoding"))
-    let st := { st with rw := { st.rw with respMeta := some rm } }
-    let comp := if rm.compression == identityName then [] else rm.compression
-    if !comp.isEmpty && !w.knownCompression comp then reportError w st .other else
-    let st := if comp.isEmpty then st else { st with rw := { st.rw with cRespComp := some comp } }
-    match rm.end with
-    | some _ =>
-      if endBody != .none then ({ st with rw := { st.rw with w := .errorWriter (some []) endBody } }, false)
-      else
-        let (st, p) := flushHeaders w st
-        ({ st with rw := { st.rw with w := .noBody } }, p)
-    | none =>
-      if !rm.codec.isEmpty && rm.codec != st.op.scodec then reportError w st .other else
-      let sameResp := st.op.ccodec == st.op.scodec
-      let st := { st with rw := { st.rw with sameRespCodec := sameResp } }
-      let (st, p) :=
-        if st.op.cform.endMustBeInHeaders then ({ st with rw := { st.rw with buf := some [] } }, false)
-        else flushHeaders w st
-      if sameResp then ({ st with rw := { st.rw with w := .enveloping {} } }, p)
-      else ({ st with rw := { st.rw with w := .transforming {} } }, p)
+    let (st, rm, endBody) := rwPrepareMeta tb st status cl clText
+    rwChooseWriter w st rm endBody
 
-/-- `responseWriter.Write`. Returns (state, bytes accepted, error?, panic?). -/
+/-- `responseWriter.Write`. Returns (state, error?, panic?). -/
 def rwWrite (w : World) (tb : Tables) (st : St) (data : Bytes) : St × Bool × Bool :=
-  let (st, p) := if st.rw.headersWritten then (st, false) else rwWriteHeader w tb st 200
-  if p then (st, true, true) else
-  if st.rw.err then (st, true, false) else
-  match st.rw.w with
+  let r0 : St × Bool := if st.rw.headersWritten then (st, false) else rwWriteHeader w tb st 200
+  if r0.2 then (r0.1, true, true) else
+  if r0.1.rw.err then (r0.1, true, false) else
+  match r0.1.rw.w with
   | .enveloping e =>
-    let (st, e, failed, p) := ewWrite w tb st e data
-    ({ st with rw := { st.rw with w := .enveloping e } }, failed, p)
+    let x := ewWrite w tb r0.1 e data
+    ({ x.1 with rw := { x.1.rw with w := .enveloping x.2.1 } }, x.2.2.1, x.2.2.2)
   | .transforming t =>
-    let (st, t, failed, p) := twWrite w tb st t data
-    ({ st with rw := { st.rw with w := .transforming t } }, failed, p)
+    let x := twWrite w tb r0.1 t data
+    ({ x.1 with rw := { x.1.rw with w := .transforming x.2.1 } }, x.2.2.1, x.2.2.2)
   | .errorWriter body kind =>
     match body with
-    | none => (st, true, false)
+    | none => (r0.1, true, false)
     | some b =>
-      if data.length + b.length > st.op.conf.maxMsg then
-        let (st, p) := reportError w st (.rpc 8); (st, true, p)
-      else ({ st with rw := { st.rw with w := .errorWriter (some (b ++ data)) kind } }, false, false)
-  | .noBody => (st, true, false)
-  | .unset => (st, true, true)
+      if data.length + b.length > r0.1.op.conf.maxMsg then
+        ((reportError w r0.1 (.rpc 8)).1, true, (reportError w r0.1 (.rpc 8)).2)
+      else ({ r0.1 with rw := { r0.1.rw with w := .errorWriter (some (b ++ data)) kind } }, false, false)
+  | .noBody => (r0.1, true, false)
+  | .unset => (r0.1, true, true)
 
-/-- `errorWriter.Close`. -/
-def errorWriterClose (w : World) (tb : Tables) (st : St) (body : Bytes) (kind : EndBody) : St × Bool :=
+/-- `errorWriter.Close`: the end of the RPC as the buffered error body describes it. -/
+def errorWriterEnd (w : World) (tb : Tables) (st : St) (body : Bytes) (kind : EndBody) : RespEnd :=
   let rm := st.rw.respMeta.getD {}
   let e : RespEnd := rm.end.getD {}
   let (e, body?) : RespEnd × Option Bytes :=
@@ -660,46 +680,56 @@ def errorWriterClose (w : World) (tb : Tables) (st : St) (body : Bytes) (kind : 
           let http := if e.httpCode == 0 || e.httpCode == 200 then 500 else e.httpCode
           ({ e with httpCode := http, err := some (genErr 13) }, none)
     | none => (e, some body)
-  let e := match body?, kind with
-    | some b, .connectUnaryError =>
-      match tb.jsonErr b with
-      | some err => { e with err := some (if err.code == 0 then { err with code := httpStatusToRPC st.rw.statusCode } else err) }
-      | none => { e with err := some (genErr (httpStatusToRPC st.rw.statusCode)) }
-    | _, _ => e
-  let st := { st with rw := { st.rw with respMeta := some { rm with «end» := some e } } }
-  flushHeaders w st
+  match body?, kind with
+  | some b, .connectUnaryError =>
+    match tb.jsonErr b with
+    | some err => { e with err := some (if err.code == 0 then { err with code := httpStatusToRPC st.rw.statusCode } else err) }
+    | none => { e with err := some (genErr (httpStatusToRPC st.rw.statusCode)) }
+  | _, _ => e
 
-/-- `responseWriter.close`. -/
-def rwClose (w : World) (tb : Tables) (st : St) : St × Bool :=
-  let (st, p) := if st.rw.headersWritten then (st, false) else rwWriteHeader w tb st 200
-  if p then (st, true) else
-  let (st, p) :=
-    match st.rw.w with
-    | .enveloping e =>
-      let (st, e, p1) :=
-        if st.rw.endWritten then (st, e, false)
-        else let (st, e, _, p) := ewWrite w tb st e []; (st, e, p)
-      if p1 then (st, true) else ewClose w st e
-    | .transforming t =>
-      let (st, t, p1) :=
-        if st.rw.endWritten then (st, t, false)
-        else let (st, t, _, p) := twWrite w tb st t []; (st, t, p)
-      if p1 then (st, true) else twClose w tb st t
-    | .errorWriter body kind =>
-      match body with
-      | some b => errorWriterClose w tb st b kind
-      | none => (st, false)
-    | _ => (st, false)
-  if p then (st, true) else
+/-- `errorWriter.Close`. -/
+def errorWriterClose (w : World) (tb : Tables) (st : St) (body : Bytes) (kind : EndBody) : St × Bool :=
+  let rm := st.rw.respMeta.getD {}
+  flushHeaders w { st with rw := { st.rw with respMeta := some { rm with «end» := some (errorWriterEnd w tb st body kind) } } }
+
+/-- `responseWriter.close`, first part: the writer for the body is closed. -/
+def rwCloseWriter (w : World) (tb : Tables) (st : St) : St × Bool :=
+  match st.rw.w with
+  | .enveloping e =>
+    if st.rw.endWritten then ewClose w st e
+    else
+      let x := ewWrite w tb st e []
+      if x.2.2.2 then (x.1, true) else ewClose w x.1 x.2.1
+  | .transforming t =>
+    if st.rw.endWritten then twClose w tb st t
+    else
+      let x := twWrite w tb st t []
+      if x.2.2.2 then (x.1, true) else twClose w tb x.1 x.2.1
+  | .errorWriter body kind =>
+    match body with
+    | some b => errorWriterClose w tb st b kind
+    | none => (st, false)
+  | _ => (st, false)
+
+/-- `responseWriter.close`, last part: the end of the RPC is taken from the response meta data or
+    from the HTTP trailers the handler set. -/
+def rwCloseEnd (w : World) (tb : Tables) (st : St) : St × Bool :=
   if st.rw.endWritten then (st, false) else
   let rm := st.rw.respMeta.getD {}
   match rm.end with
   | some e => reportEnd w st e
   | none =>
-    let (trailers, h) := httpExtractTrailers st.hdr rm.pendingTrailerKeys
-    let st := st.setHdr h
-    match st.op.sform.extractEndFromTrailers tb trailers with
-    | none => reportError w st .other
-    | some e => reportEnd w st e
+    let x := httpExtractTrailers st.hdr rm.pendingTrailerKeys     -- (trailers, remaining headers)
+    let s1 := st.setHdr x.2
+    match s1.op.sform.extractEndFromTrailers tb x.1 with
+    | none => reportError w s1 .other
+    | some e => reportEnd w s1 e
+
+/-- `responseWriter.close`. -/
+def rwClose (w : World) (tb : Tables) (st : St) : St × Bool :=
+  let r0 : St × Bool := if st.rw.headersWritten then (st, false) else rwWriteHeader w tb st 200
+  if r0.2 then (r0.1, true) else
+  let r1 := rwCloseWriter w tb r0.1
+  if r1.2 then (r1.1, true) else rwCloseEnd w tb r1.1
 
 end Vanguard
